@@ -37,19 +37,34 @@ def tainted(tree, model):
 
 
 def all_literal(tree):
+    """names given as string literals in a list / tuple display bound to __all__ by a statement of the module scope - directly in the module body or
+    inside its compound statements (if / try / with / for / while), not inside functions or classes"""
     names = []
-    for node in tree.body:
-        tgt = None
-        if isinstance(node, ast.Assign):
-            if any(isinstance(t, ast.Name) and t.id == '__all__' for t in node.targets):
-                tgt = node.value
-        elif isinstance(node, (ast.AugAssign, ast.AnnAssign)):
-            if isinstance(node.target, ast.Name) and node.target.id == '__all__':
-                tgt = node.value
-        if isinstance(tgt, ast.List):
-            for e in tgt.elts:
-                if isinstance(e, ast.Constant) and isinstance(e.value, str):
-                    names.append(e.value)
+
+    def walk(body):
+        for node in body:
+            tgt = None
+            if isinstance(node, ast.Assign):
+                if any(isinstance(t, ast.Name) and t.id == '__all__' for t in node.targets):
+                    tgt = node.value
+            elif isinstance(node, (ast.AugAssign, ast.AnnAssign)):
+                if isinstance(node.target, ast.Name) and node.target.id == '__all__':
+                    tgt = node.value
+            if isinstance(tgt, (ast.List, ast.Tuple)):
+                for e in tgt.elts:
+                    if isinstance(e, ast.Constant) and isinstance(e.value, str):
+                        names.append(e.value)
+            if isinstance(node, (ast.FunctionDef, ast.AsyncFunctionDef, ast.ClassDef)):
+                continue
+            for f in ('body', 'orelse', 'finalbody'):
+                sub = getattr(node, f, None)
+                if isinstance(sub, list) and sub and isinstance(sub[0], ast.stmt):
+                    walk(sub)
+            for h in getattr(node, 'handlers', None) or []:
+                walk(h.body)
+            for c in getattr(node, 'cases', None) or []:
+                walk(c.body)
+    walk(tree.body)
     return names
 
 
